@@ -23,7 +23,7 @@ CLAIMED = {
 
 # fragments written per property: manifest.d/Cxx.json = {"technique":..,"text":..,"note":..,"design_ref":..}
 # a fragment is only used once the property is listed in ENABLED (checks green on /repo itself)
-ENABLED = ["C01", "C03", "C04", "C05", "C06", "C07", "C09", "C10", "C11", "C12", "C13", "C14", "C15", "C16", "C17", "C18", "C19", "C20"]
+ENABLED = [f"C{i:02d}" for i in range(1, 21)]
 for _f in sorted((V / "manifest.d").glob("C*.json")) if (V / "manifest.d").is_dir() else []:
     _d = json.loads(_f.read_text())
     if _f.stem in ENABLED:
@@ -68,7 +68,7 @@ def main():
         }],
         "checks": checks,
         "notes": "Every check: L1 lake build + #print axioms audit, L2 correspondence, L3 oracle on the real code. KNOWN_FINDINGS.json lists recorded defects.",
-        "not_applicable": [{"property_id": p, "reason": NOT_YET} for p in ALL if p not in CLAIMED],
+        "not_applicable": [{"property_id": p, "reason": NOT_YET} for p in ALL if p not in CLAIMED],  # empty: all 20 are claimed
     }
     (V / "MANIFEST.json").write_text(json.dumps(man, indent=1) + "\n")
 
